@@ -86,6 +86,7 @@ type CmdDef struct {
 	ArgFn        bool        `json:"argfn,omitempty"`
 	ArgFnSlow    bool        `json:"argfn_slow,omitempty"` // a further dynamic completion function that takes 1.5 s to answer (a network lookup)
 	SynArgs      [][2]string `json:"synargs,omitempty"`
+	SelfDesc     bool        `json:"self_desc,omitempty"` // cmd.Self("", text) is called on the command: the documented way to give it a long description
 }
 
 // Def is a whole program definition.
@@ -420,6 +421,9 @@ func (p *Prog) build(l *level) {
 	}
 	for _, cd := range d.Cmds {
 		child := &level{def: cd, parent: l, opt: opt.NewCommand(cd.Name, cd.Desc)}
+		if cd.SelfDesc {
+			child.opt.Self("", "long description of "+cd.Name)
+		}
 		if l.path == "" {
 			child.path = cd.Name
 		} else {
